@@ -90,7 +90,10 @@ def gen_fa(rng, cls=None, max_states=5, max_syms=3, pool=None, eps=True):
     if states and rng.random() < 0.25:
         for _ in range(rng.randint(1, 3)):
             q, a, r = rng.choice(states), rng.randrange(k), rng.choice(states)
-            if [q, a, r] not in delta and not (cls == "D" and any(t[0] == q and t[1] == a for t in delta)):
+            if cls == "E" and rng.random() < 0.4:
+                a = None        # an epsilon move that exists only for a while
+            if [q, a, r] not in delta and ["t", q, a, r] not in churn \
+                    and not (cls == "D" and any(t[0] == q and t[1] == a for t in delta + [c[1:] for c in churn])):
                 churn.append(["t", q, a, r])
         for q in states:
             if q not in finals and rng.random() < 0.2:
@@ -99,8 +102,10 @@ def gen_fa(rng, cls=None, max_states=5, max_syms=3, pool=None, eps=True):
             for q in states:
                 if q not in starts and rng.random() < 0.15:
                     churn.append(["s", q])
+    # queries issued while the temporary pieces are present: what they compute must not outlive the removal
+    churn_query = bool(churn) and rng.random() < 0.6
     return {"cls": cls, "svals": svals, "symvals": symvals, "starts": starts, "finals": finals,
-            "delta": delta, "extra_syms": extra_syms, "iso": iso, "churn": churn}
+            "delta": delta, "extra_syms": extra_syms, "iso": iso, "churn": churn, "churn_query": churn_query}
 
 
 def enumerate_fa(max_states, nsyms, cls="E", eps=True):
@@ -138,19 +143,39 @@ def build(spec):
         fa.add_symbol(yv[a])
     for item in spec.get("churn", []):
         if item[0] == "t":
-            fa.add_transition(sv[item[1]], yv[item[2]], sv[item[3]])
+            fa.add_transition(sv[item[1]], Epsilon() if item[2] is None else yv[item[2]], sv[item[3]])
         elif item[0] == "s":
             fa.add_start_state(sv[item[1]])
         else:
             fa.add_final_state(sv[item[1]])
+    if spec.get("churn_query"):
+        churn_queries(fa, yv)
     for item in spec.get("churn", []):
         if item[0] == "t":
-            fa.remove_transition(sv[item[1]], yv[item[2]], sv[item[3]])
+            fa.remove_transition(sv[item[1]], Epsilon() if item[2] is None else yv[item[2]], sv[item[3]])
         elif item[0] == "s":
             fa.remove_start_state(sv[item[1]])
         else:
             fa.remove_final_state(sv[item[1]])
     return fa
+
+
+def churn_queries(fa, yv):
+    """public queries on the automaton while it still holds pieces that are about to be removed; the answers are
+    discarded - only what they might leave behind in the object matters"""
+    try:
+        for w in ([], [yv[0]] if yv else [], list(yv[:2])):
+            fa.accepts(w)
+        fa.is_deterministic()
+        fa.is_empty()
+        if hasattr(fa, "eclose"):
+            for q in list(fa.states):
+                fa.eclose(q)
+        if len(fa.states) <= 4:
+            fa.to_deterministic()
+            fa.is_acyclic()
+    except Exception:  # pylint: disable=broad-except
+        pass
 
 
 class Codes:
